@@ -436,6 +436,11 @@ func runC12(c *Ctx) {
 			mal("extra-crlf-between-chunks", []byte(strings.Replace(string(good), first+"\r\n", first+"\r\n\r\n", 1)), len(payload), "after first chunk", "reject")
 			mal("bad-signature-header-then-the-header-again", append([]byte("18;chunk-signature="+strings.Repeat("g", 64)+"\r\n"), good...), len(payload), "first header", "reject")
 			mal("bad-size-line-then-the-stream", append([]byte("zz\r\n"), good...), len(payload), "first header", "reject")
+			// a chunk that announces 2^63 bytes or more and carries none, between two good chunks
+			for _, hx := range []string{"ffffffffffffffff", "8000000000000000", "ffffffffffffffe8", "10000000000000000", "100000018", "0000000000000000000000018"} {
+				hdr := hx + ";chunk-signature=" + strings.Repeat("d", 64) + "\r\n\r\n"
+				mal("huge-empty-chunk-between-chunks", []byte(strings.Replace(string(good), first+"\r\n", first+"\r\n"+hdr, 1)), len(payload), "size "+hx, "reject")
+			}
 			mal("extension-not-chunk-signature", rep1(";chunk-signature=", ";chunk-sXgnature="), len(payload), "first header", "reject")
 			mal("plus-signed-size", rep1("18;", "+18;"), len(payload), "first header", "reject")
 			mal("space-padded-size", rep1("18;", " 18;"), len(payload), "first header", "reject")
